@@ -22,6 +22,34 @@ try:
 except Exception:
     pass
 
+def level_text(pid, cfg):
+    parts = ["Held on the executions this run produced, nothing more: the real code of /repo's working tree is driven by generated "
+             "hostile/stress workloads (sizes are counts fixed by tier and VERIF_SEED) while monitors decide the property's oracle on every "
+             "observed event; evidence reports evaluations, distinct non-trivial cases, events observed and written-out samples."]
+    if cfg["level"] == "fault_enumeration":
+        parts.append("Within stated small bounds the fault positions are enumerated exhaustively (see 'rule' and exhaustive_note in the "
+                     "evidence); beyond them faults are sampled.")
+    if cfg.get("race_oracle"):
+        parts.append("The Go race detector is an additional oracle, restricted to reports whose two access stacks both lie in "
+                     + ", ".join(cfg.get("race_files", [])) + ".")
+    if cfg.get("post"):
+        parts.append("Recorded logs/histories are also decided offline (" + ", ".join(x["name"] for x in cfg["post"]) + "); a checker "
+                     "timeout is inconclusive, never a violation.")
+    parts.append("This is the right level for a property quantified over inputs, schedules and fault histories that a runtime-monitoring "
+                 "technique can only sample: no proof or exhaustive model is claimed.")
+    return " ".join(parts)
+
+
+def level_note(pid, cfg):
+    base = ("Trusted: Go runtime, testing/synctest virtual time, race detector, quic-go (incl. its simnet), the harness-owned fakes and "
+            "reference models (written from PROTOCOL.md / documented behaviour). Only generated inputs and interleavings are covered; "
+            "exit 2 = inconclusive (build failure, watchdog, too few events), never reported as a violation. ")
+    ass = cfg.get("assumptions") or []
+    if ass:
+        base += "Assumptions: " + "; ".join(a if len(a) < 220 else a[:217] + "..." for a in ass[:6])
+    return base
+
+
 checks = []
 for pid in sorted(P.CLAIMED):
     cfg = P.CLAIMED[pid]
@@ -34,14 +62,11 @@ for pid in sorted(P.CLAIMED):
         "engine": "runner",
         "level_claimed": {
             "category": cfg["level"],
-            "text": cfg.get("level_text", "Held on the executions produced by this run: the real code is driven by generated "
-                                           "hostile workloads while monitors check the property's oracle on every event; "
-                                           "evidence lists what was observed."),
-            "design_ref": "DESIGN.md §3 " + pid,
+            "text": cfg.get("level_text") or level_text(pid, cfg),
+            "design_ref": "DESIGN.md §3 %s, §8a (as built), §11 (seeded changes caught)" % pid,
         },
-        "level_note": cfg.get("level_note", "Trusted: Go runtime/race detector/testing/synctest, the harness's reference model; "
-                                            "only the generated inputs/interleavings are covered."),
-        "technique": cfg.get("technique", "runtime monitoring: generated workload + online oracle"),
+        "level_note": cfg.get("level_note") or level_note(pid, cfg),
+        "technique": cfg.get("technique", "runtime monitoring: generated workload + online oracle (reference model) on the real code"),
     })
 
 na = []
